@@ -204,6 +204,21 @@ func VfC03_TableFill() {
 		probe(mid+1, "10.0.1.8:7000", "")
 		probe(hi, "10.0.1.8:7000", "")
 		nd.Cover("resharded")
+		// round 5: the two halves change hands between the same two masters; no configuration
+		// epoch, node or replica count differs from the previous reply, only the slot lists do
+		text5 := "idA 10.0.9.9:7000@17000 master - 0 0 3 connected " + mkRange(mid+1, hi) + "\n" +
+			"idR2 10.0.1.7:7000@17000 slave idA 0 0 1 connected\n" +
+			"idC 10.0.1.8:7000@17000 master - 0 0 4 connected " + mkRange(lo, mid) + "\n"
+		err = round(text5)
+		nd.Assert(err == nil, "fifth round accepted")
+		if err != nil {
+			return
+		}
+		probe(lo, "10.0.1.8:7000", "")
+		probe(mid, "10.0.1.8:7000", "")
+		probe(mid+1, "10.0.9.9:7000", "10.0.1.7:7000")
+		probe(hi, "10.0.9.9:7000", "10.0.1.7:7000")
+		nd.Cover("halves-swapped")
 	}
 }
 
